@@ -1,0 +1,45 @@
+//! Verification hooks, compiled only under `--cfg helgoboss_midi_verif`.
+//!
+//! Provides a drop-in replacement for `std::time::Instant` that is backed by a thread-local,
+//! test-driven tick counter (1 tick = 1 millisecond) so that histories fed to the polling scanner
+//! can contain explicit time steps.
+use core::time::Duration;
+use std::cell::Cell;
+
+thread_local! {
+    static NOW_MS: Cell<u64> = Cell::new(0);
+}
+
+/// Sets the mock clock of the current thread (milliseconds since an arbitrary origin).
+pub fn set_now(ms: u64) {
+    NOW_MS.with(|n| n.set(ms));
+}
+
+/// Advances the mock clock of the current thread.
+pub fn advance(ms: u64) {
+    NOW_MS.with(|n| n.set(n.get() + ms));
+}
+
+/// Returns the current reading of the mock clock of the current thread.
+pub fn now_ms() -> u64 {
+    NOW_MS.with(|n| n.get())
+}
+
+/// Mock counterpart of `std::time::Instant`.
+#[derive(Copy, Clone, Eq, PartialEq, Ord, PartialOrd, Hash, Debug)]
+pub struct Instant(u64);
+
+impl Instant {
+    pub fn now() -> Instant {
+        Instant(now_ms())
+    }
+
+    pub fn elapsed(&self) -> Duration {
+        Duration::from_millis(now_ms().saturating_sub(self.0))
+    }
+
+    /// The clock reading at which this instant was taken.
+    pub fn as_ms(&self) -> u64 {
+        self.0
+    }
+}
